@@ -4,6 +4,8 @@
     External engines are universally quantified ([rq] regexp classification, [rx_auto], [rcompile], [lang]). *)
 From ZV Require Import Lib.Base Model.Query Generated.ParserTables Model.Parser Model.QueryDoc Model.QueryDocRun.
 From ZV Require Import Proofs.QueryDocTree Proofs.QueryDocParse Proofs.QuerySimplify Proofs.QueryDocSem Proofs.C06Main Proofs.DocTable.
+From ZV Require Model.Regex Proofs.RegexCase.
+From ZV Require Import Model.RegexCase Proofs.C06Case.
 From Coq Require Import String.
 Open Scope N_scope.
 
@@ -70,14 +72,53 @@ Theorem C06_case_scope_enclosing_group :
 Proof. exact build_pass. Qed.
 Print Assumptions C06_case_scope_enclosing_group.
 
-(** case:auto is case-sensitive exactly when the (literal) pattern has an upper-case letter;
-    case:yes / case:no are sensitive / insensitive *)
+(** case:auto, the rule of the document ("if the pattern contains uppercase letters, the search will be
+    case-sensitive; otherwise case-insensitive") at the level of the regexp syntax tree:
+    [re_auto] = query/regexp.go LowerRegexp + Regexp.Equal as used by Regexp.setCase("auto")
+    (Model/RegexCase.v), [has_upper_re] = an upper-case letter occurs as a literal rune or as a bound of a
+    character-class range at ANY position of the tree - below star, plus, quest, counted repetition, capture
+    groups, inside sequences and alternatives. *)
+Theorem C06_lower_regexp_all_positions :
+  forall r : Regex.re, re_auto r = has_upper_re r.
+Proof. exact Proofs.RegexCase.re_auto_iff_upper. Qed.
+Print Assumptions C06_lower_regexp_all_positions.
+
+(** case:auto is case-sensitive exactly when the pattern has an upper-case letter - for literal patterns
+    (bytes of the pattern) AND for proper regexps (every position of the syntax tree [ast] of the regexp, the
+    parser deciding with the model of LowerRegexp); sym: forwards to its pattern; case:yes / case:no are
+    sensitive / insensitive. *)
 Theorem C06_case_auto_iff_upper :
-  forall (rx_auto : str -> bool) (k : cflavor) (p : str) (cs f c : bool),
-    setCase rx_auto (flavor_text k) (QSubstring p cs f c) =
-    QSubstring p (match k with CYes => true | CNo => false | CAuto => existsb is_upper p end) f c.
-Proof. exact case_auto_iff_upper. Qed.
+  forall (ast : str -> Regex.re) (k : cflavor),
+    (forall (p : str) (cs f c : bool),
+        setCase (auto_of_ast ast) (flavor_text k) (QSubstring p cs f c) =
+        QSubstring p (match k with CYes => true | CNo => false | CAuto => existsb is_upper p end) f c) /\
+    (forall (r : rx) (cs f c : bool),
+        setCase (auto_of_ast ast) (flavor_text k) (QRegexp r cs f c) =
+        QRegexp r (match k with CYes => true | CNo => false | CAuto => has_upper_re (ast (rx_src r)) end) f c) /\
+    (forall e : Q, setCase (auto_of_ast ast) (flavor_text k) (QSymbol e) =
+                   QSymbol (setCase (auto_of_ast ast) (flavor_text k) e)).
+Proof. exact case_flavours_all_atoms. Qed.
 Print Assumptions C06_case_auto_iff_upper.
+
+(** THE PROPERTY with the auto-case engines made concrete: the parser decides with the model of LowerRegexp
+    on the regexp's syntax tree, the documented meaning with the documented rule on the same tree - two
+    different functions; [ast] (regexp/syntax's parser) stays external. *)
+Theorem C06_parse_render_regexp_case :
+  forall (rq : str -> rqres) (ast : str -> Regex.re) (rcompile : str -> bool) (lang : str -> option str) (q : dquery),
+    wf_query rq rcompile q = true ->
+    parse rq (auto_of_ast ast) rcompile lang (render q) =
+    Ok (Simplify (den (rq_d rq) (upper_of_ast ast) lang q)).
+Proof. exact parse_render_ast. Qed.
+Print Assumptions C06_parse_render_regexp_case.
+
+Theorem C06_selects_documented_documents_regexp_case :
+  forall (rq : str -> rqres) (ast : str -> Regex.re) (rcompile : str -> bool) (lang : str -> option str) (q : dquery),
+    wf_query rq rcompile q = true ->
+    exists t, parse rq (auto_of_ast ast) rcompile lang (render q) = Ok t /\
+      forall (D : Type) (env : atoms D) (d : D), atoms_ok env ->
+        eval env t d = Proofs.QueryDocSem.sat_query (rq_d rq) (upper_of_ast ast) lang D env d q.
+Proof. exact selects_documented_documents_ast. Qed.
+Print Assumptions C06_selects_documented_documents_regexp_case.
 
 (** the Coq reading uses exactly the fields, aliases and value sets of the document: [doc_fields], [doc_types],
     [doc_booleans], [doc_cases] are regenerated from doc/query_syntax.md (field table, EBNF summary) on every run *)
@@ -103,6 +144,17 @@ Theorem C06_regex_field_refuted :
   exists q : dquery, ex_parse (render q) = ex_parse (dbs "a") /\ ex_parse (render q) <> Ok (Simplify (ex_den q)).
 Proof. exact regex_field_refuted. Qed.
 Print Assumptions C06_regex_field_refuted.
+
+(** case:auto and negated classes (known finding auto-case-upper-only-in-negated-class): regexp/syntax hands
+    the parser the COMPLEMENTED class, e.g. [^A-Z] as the ranges 0-'@', '['-0x10FFFF; no bound is an
+    upper-case letter, so at the level of the syntax tree - where LowerRegexp and the theorems above work -
+    such a pattern has no upper-case letter although its text has.  The deviation from the document is between
+    pattern text and tree (regexp/syntax's parser is external to the model); the harness observes it. *)
+Theorem C06_negated_class_tree_has_no_upper :
+  re_auto (Regex.RConcat [Regex.RLit false [120]; Regex.RClass [(0, 64); (91, 1114111)]]) = false /\
+  re_auto (Regex.RConcat [Regex.RLit false [120]; Regex.RClass [(65, 90)]]) = true.
+Proof. split; vm_compute; reflexivity. Qed.
+Print Assumptions C06_negated_class_tree_has_no_upper.
 
 (** ---- non-vacuity: well-formed queries exist, and on them the full statement holds by computation *)
 Definition ex_q1 : dquery :=   (* a ( Foo or -f:"x y" case:yes) or type:repo r:z c:B *)
@@ -139,3 +191,17 @@ Proof.
   split; [vm_compute; reflexivity|]. split; [vm_compute; reflexivity|]. split; [vm_compute; reflexivity|].
   eexists. split; [vm_compute; reflexivity|]. split; vm_compute; reflexivity.
 Qed.
+
+(** regexp atoms under case:auto: upper-case letters only below '+' make the atom case-sensitive, a regexp
+    without upper-case letters is insensitive, an enclosing case:no overrides
+    ([rx_rq] [rx_ast] [rx_parse] [rx_den] [rx_wf]: Proofs/C06Case.v) *)
+Example ex_upper_below_plus : has_upper_re ex_re1 = true /\ re_auto ex_re1 = true /\ re_auto ex_re2 = false /\
+  has_upper_re (Regex.RAlt [Regex.RCapture (Regex.RRepeat 0%nat (Some 3%nat) (Regex.RQuest (Regex.RLit true [71; 101; 116]))); Regex.RAny]) = true.
+Proof. repeat split; vm_compute; reflexivity. Qed.
+Definition ex_q4 : dquery :=   (* [A-Z]+_id -x[a-z]*y ( case:no [A-Z]+_id) *)
+  [[DText (WPlain (dbs "[A-Z]+_id")); DNeg (DText (WPlain (dbs "x[a-z]*y")));
+    DGroup [[DCase CNo; DText (WPlain (dbs "[A-Z]+_id"))]]]].
+Example ex_q4_full : rx_wf ex_q4 = true /\ rx_parse (render ex_q4) = Ok (Simplify (rx_den ex_q4)) /\
+  Simplify (rx_den ex_q4) = QAnd [QRegexp ex_rx1 true false false; QNot (QRegexp ex_rx2 false false false);
+                                  QRegexp ex_rx1 false false false].
+Proof. repeat split; vm_compute; reflexivity. Qed.
